@@ -56,7 +56,7 @@ CHECKS = {
          "DESIGN.md section 4, C08"),
  "C09": ("totality fuzzing of the grammar front-end with token-level mutations of real and generated grammars, truncations and token soup; oracle = returns + located renderable errors",
          "Exploration: ~0.7M texts (quick) from five sources; every call is wrapped in catch_unwind in a worker process whose death is attributed to the journaled in-flight text; error locations are checked against the text and rendered.",
-         "Inputs bounded as stated (4 KiB, nesting 200, repetition-count product 4096, unrolled size 256 KiB). 'Bounded time' is read as a linear budget of combinator calls for the meta parser (200/byte, enforced through pest's call limit); validation/optimisation time is covered by the size bounds and a watchdog (inconclusive, exit 2). Thorough adds a libFuzzer campaign (fuzz/fuzz_targets/meta_total.rs, 2M executions, same oracle in-target). Runs under both feature configurations (default, grammar-extras); evidence merged.",
+         "Inputs bounded as stated (4 KiB, nesting 200, repetition-count product 4096, unrolled size 256 KiB). 'Bounded time' is read as a linear budget of combinator calls for the meta parser (200/byte, enforced through pest's call limit); validation/optimisation time is covered by the size bounds and a watchdog (inconclusive, exit 2). Thorough adds a libFuzzer campaign (fuzz/fuzz_targets/meta_total.rs, 1.2M executions, same oracle in-target). Runs under both feature configurations (default, grammar-extras); evidence merged.",
          "DESIGN.md section 4, C09"),
  "C10": ("exhaustive small-scope enumeration of strings x offsets x offset pairs + proptest strings, against direct definitions of line/column/line containment",
          "Exploration: all strings of <= 6 symbols (quick) / 8 (thorough) over {a, LF, CR, TAB, e-acute, emoji} with every offset and offset pair, plus random long strings; Position/Span/Pair/Error line-column results and the rendered error text are compared with the definitions. Bounded-exhaustive plus sampled.",
